@@ -46,7 +46,7 @@ def setup(ctx):
     for l in ("a", "b", "c"):
         jobs.append(("lib%s.in" % l, common.igate_job(l, libs[l]["files"], libs[l]["main"], "-python-native", channels=("oc", "od"), srcdir=libs[l]["srcdir"], incs=libs[l]["incs"])))
     rich = common.read_fixture("single/rich.h")
-    for be in common.BACKENDS:
+    for be in ("-c", "-python", "-python-native"):
         jobs.append(("rich%s.in" % be, common.igate_job("rich", {"rich.h": rich}, ["rich.h"], be, channels=("oc", "od"), opts=["-unique-names"] if be == "-c" else [])))
     jobs.append(("rich-odonly.in", common.igate_job("rich", {"rich.h": rich}, ["rich.h"], "-python-native", channels=("od",))))
     _gen_real_universes(ctx, env)
